@@ -231,35 +231,55 @@ class Ctx:
         from hypothesis import given, seed
 
         ctx = self
+        # Run in chunks with derived seeds so that an exhausted wall budget stops generation too
+        # (inside one Hypothesis run skipped cases are still generated, which can cost minutes).
+        for k, n in enumerate(self._chunks(examples)):
+            if self.over_budget() and not self.replaying:
+                self.skipped += n
+                continue
 
-        @seed(self.hseed)
-        @self.settings(examples)
-        @given(strategy)
-        def test(case):
-            ctx.exec_case(case, run_case)
+            @seed(self.hseed * 64 + k)
+            @self.settings(n)
+            @given(strategy)
+            def test(case):
+                ctx.exec_case(case, run_case)
 
-        try:
-            test()
-        except Failure:
-            return False
-        except hypothesis.errors.HypothesisException as exc:
-            raise HarnessError(f"hypothesis: {type(exc).__name__}: {exc}") from exc
+            try:
+                test()
+            except Failure:
+                return False
+            except hypothesis.errors.HypothesisException as exc:
+                raise HarnessError(f"hypothesis: {type(exc).__name__}: {exc}") from exc
         return True
+
+    @staticmethod
+    def _chunks(examples):
+        if examples <= 400:
+            return [examples]
+        size = max(200, examples // 12)
+        out = [size] * (examples // size)
+        if examples % size:
+            out.append(examples % size)
+        return out
 
     def run_machine(self, machine_cls, examples, steps):
         import hypothesis
         from hypothesis import seed
         from hypothesis.stateful import run_state_machine_as_test
 
-        try:
-            run_state_machine_as_test(
-                seed(self.hseed)(machine_cls),
-                settings=self.settings(examples, stateful_step_count=steps),
-            )
-        except Failure:
-            return False
-        except hypothesis.errors.HypothesisException as exc:
-            raise HarnessError(f"hypothesis: {type(exc).__name__}: {exc}") from exc
+        for k, n in enumerate(self._chunks(examples)):
+            if self.over_budget() and not self.replaying:
+                self.skipped += n
+                continue
+            try:
+                run_state_machine_as_test(
+                    seed(self.hseed * 64 + k)(machine_cls),
+                    settings=self.settings(n, stateful_step_count=steps),
+                )
+            except Failure:
+                return False
+            except hypothesis.errors.HypothesisException as exc:
+                raise HarnessError(f"hypothesis: {type(exc).__name__}: {exc}") from exc
         return True
 
     # ---- result --------------------------------------------------------------------------
